@@ -211,7 +211,7 @@ def construction_specs(tier, rng):
                     for rot in ((0, 1) if tier == "thorough" else (c % 2,)):
                         tm = [(c + rot * 5 + 3 * j) % nt for j in range(n)]
                         specs.append(("keys", Spec([KEYS[i] for i in ks], [(c + j) % 4 for j in range(n)], [member(i) for i in tm],
-                                                   None if sup is None else sci(sup), bypass)))
+                                                   None if sup is None else sci(sup), bypass, hastag=(c % 3 != 0))))
                     c += 1
     # (b) every tuple of member templates (supports disjoint / overlapping / touching / identical / empty), every support choice
     tuples = []
@@ -332,7 +332,7 @@ def check_construction(nap, res, spec, model_line, part):
         if got and (not spec.bypass or gs == im["sup"]):
             if not rate_ok(r2, (len(got), tot(im["sup"]))) or not rate_ok(r, (len(got), tot(im["sup"]))):
                 res.violations.append({"key": dict(kk, part="rate"), "what": "rate[%d] != len(member) / total support duration" % im["keys"][j], "input": inp,
-                                       "impl": r2, "expected": len(got) / (tot(im["sup"]) / 1e9)})
+                                       "impl": r2, "expected": "%d / (%d ns)" % (len(got), tot(im["sup"]))})
         elif got and spec.bypass:
             res.count("bypass_member_keeps_own_support(rate relative to it)")
         if spec.hastag and im["tags"][j] != spec.tags[i]:
@@ -585,6 +585,8 @@ def history_cases(tier, seed):
         r = rng.random()
         asup = sup if r < 0.6 else rng.choice(SUPS)
         aux = rand_spec(rng, KEYS2, None if asup is None else sci(asup), nmax=3, bypass_p=0.05)
+        if aux.sup is None and not any(t and (k in (1, 2) or any(G.mem(x, sp) for x in t)) for k, t, sp in aux.members):
+            aux.sup = sci([(0, 12)])   # the union of the members' supports would be empty: the second group must exist
         if base.hastag and rng.random() < 0.9:
             aux.hastag = True
         n = len(base.members)
@@ -676,11 +678,20 @@ def group_level(nap, res, tier, seed):
         lines.append("\t".join(["gvf"] + a + [str(mode), C.fmt_ints(sc(src)), C.fmt_iset(ep)]))
     out = C.run_model(lines, driver="driver_c12")
     for n, (sp, ep, b, src, mode) in enumerate(cases):
+        try:
+            _group_level_case(nap, res, out, n, sp, ep, b, src, mode)
+        except Exception as ex:
+            res.violations.append({"key": {"op": "group_level", "part": "exception"}, "what": "group-level count / trial_count / value_from raised %s" % repr(ex),
+                                   "input": dict(sp.desc(), ep=ep, bin=b, source=src)})
+
+
+def _group_level_case(nap, res, out, n, sp, ep, b, src, mode):
+    if True:
         inp = dict(sp.desc(), ep=ep, bin=b, source=src, mode=["before", "closest", "after"][mode])
         try:
             g, _ = sp.build(nap)
         except Exception:
-            continue
+            return
         res.case(("group_level", str(inp)), nontrivial=len(g) >= 2)
         res.count("group_level")
         keys = [int(k) for k in g.keys()]
@@ -741,7 +752,7 @@ def group_level(nap, res, tier, seed):
         V = g.value_from(tsd, epo, mode=ms)
         if [int(k) for k in V.keys()] != keys or ticks_iset(V.time_support) != ep:
             res.violations.append({"key": {"op": "value_from", "part": "keys_support"}, "what": "group value_from changed the keys or did not install ep", "input": inp})
-            continue
+            return
         blocks = out[4 * n + 3].split("#") if out[4 * n + 3] else []
         srcr = [x for x in src if G.mem(x, ep)]
         for i, k in enumerate(keys):
@@ -755,6 +766,70 @@ def group_level(nap, res, tier, seed):
             gv = [None if np.isnan(v) else int(v) for v in V[k].values]
             if int(f[0]) != k or mt != [C.to_ns(t) for t in V[k].t] or mv != gv:
                 res.disagreements.append({"op": "group value_from", "input": inp, "impl": gv, "model": blocks[i]})
+
+
+# --------------------------------------------------------------------------------------
+# n-ary merges (merge_group of 3 or 4 groups)
+KEYS3 = [(10, (0, 10)), ("11", (1, 11)), (12.0, (3, 12)), (-7, (0, -7))]
+
+
+def merge_nary(nap, res, tier, seed):
+    rng = random.Random(seed * 13 + 3)
+    cases, lines = [], []
+    for c in range(150 if tier == "quick" else 1500):
+        n = rng.choice([3, 3, 4])
+        sup = rng.choice([[(0, 12)], [(1, 5)], [(3, 5), (9, 11)]])
+        pools = [KEYS[:3], KEYS2[:4], KEYS3, KEYS[3:]]
+        rng.shuffle(pools)
+        specs = []
+        for i in range(n):
+            s_i = sup if rng.random() < 0.85 else rng.choice(SUPS[1:])
+            sp = rand_spec(rng, pools[i], sci(s_i), nmax=2, bypass_p=0.0, hastag_p=0.95)
+            specs.append(sp)
+        ri, rs, im = int(rng.random() < 0.25), int(rng.random() < 0.3), int(rng.random() < 0.55)
+        cases.append((specs, ri, rs, im))
+        lines.append("\t".join(["merge", "%d %d %d %d" % (ri, rs, im, n)] + [x for sp in specs for x in sp.args()]))
+    out = C.run_model(lines, driver="driver_c12")
+    for (specs, ri, rs, im), line in zip(cases, out):
+        inp = {"groups": [sp.desc() for sp in specs], "reset_index": ri, "reset_time_support": rs, "ignore_metadata": im}
+        try:
+            gs = [sp.build(nap)[0] for sp in specs]
+            sts = [impl_state(g) for g in gs]
+        except Exception as e:
+            res.violations.append({"key": {"op": "init", "part": "exception"}, "what": "TsGroup() raised %s on valid input" % type(e).__name__, "input": inp, "impl": repr(e)})
+            continue
+        res.case(("merge_nary", str(inp)), nontrivial=True)
+        res.count("merge_nary")
+        try:
+            r = nap.TsGroup.merge_group(*gs, reset_index=bool(ri), reset_time_support=bool(rs), ignore_metadata=bool(im))
+            st = impl_state(r)
+            ex = None
+        except Exception as e:
+            st, ex = None, e
+        if not states_agree(st, parse_state(line)):
+            res.disagreements.append({"op": "merge_group(n-ary)", "input": inp, "impl": st if st is not None else repr(ex), "model": line})
+            continue
+        legal = (im or all(s_["hastag"] == sts[0]["hastag"] for s_ in sts)) and (rs or all(s_["sup"] == sts[0]["sup"] for s_ in sts)) \
+            and (ri or sum(len(s_["keys"]) for s_ in sts) == len(set(k for s_ in sts for k in s_["keys"])))
+        if not legal:
+            continue
+        items = [(k, m) for s_ in sts for k, m in zip(s_["keys"], s_["mem"])]
+        if ri:
+            items = [(i, m) for i, (_, m) in enumerate(items)]
+        if rs and not any(m[1] for _, m in items):
+            continue
+        kk = {"op": "merge_group", "ignore_metadata": bool(im), "concat_keys_sorted": [k for k, _ in items] == sorted(k for k, _ in items),
+              "reset_index": bool(ri), "reset_time_support": bool(rs)}
+        if st is None:
+            res.violations.append({"key": dict(kk, part="exception"), "what": "merge of groups with disjoint keys and the same time support raised", "input": inp, "impl": repr(ex)})
+            continue
+        src = dict(items)
+        if st["keys"] != sorted(src) or (not rs and st["sup"] != sts[0]["sup"]) or \
+                any(m[0] != [x for x in src[k][0] if G.mem(x, st["sup"])] for k, m in zip(st["keys"], st["mem"])):
+            res.violations.append({"key": dict(kk, part="members"), "what": "merged group does not hold every member's timestamps under its key", "input": inp, "impl": st})
+        iv = invariant_viol(st)
+        if iv:
+            res.violations.append({"key": dict(kk, part="invariant"), "what": iv, "input": inp, "impl": st})
 
 
 # --------------------------------------------------------------------------------------
@@ -785,6 +860,7 @@ def run(res, tier, seed):
         run_history(nap, res, b, a, ops, hout[n])
         if n % 331 == 0:
             res.sample({"history": [list(o) for o in ops], "base": b.desc(), "trace": hout[n][:300]})
+    merge_nary(nap, res, tier, seed)
     group_level(nap, res, tier, seed)
 
 
